@@ -103,4 +103,32 @@ PROPS = {
                 "Non-trivial: write case with an escaping or colliding name; tree with a nested file and a file that is skipped, newline-fixed or quoted. Distinct by case.",
         "assumptions": ["the sandbox runs as root: permission denials are never part of an expected outcome"],
     },
+    "C09": {
+        "pkg": "c09_work",
+        "level": "exploration",
+        "engine": "sched+rapid",
+        "instr": ["par:parx"],
+        "extra": [{"pkg": "parreal", "race": True, "tiers": ["quick", "thorough"], "run": "^TestWorkStress$", "shards": {"quick": 1, "thorough": 4}}],
+        "technique": "property-based testing over schedules: par/work.go is re-compiled against harness shims of sync, sync/atomic, math/rand and the go statement, and run under a deterministic cooperative scheduler whose choices are rapid-drawn (random choice sequences, PCT priorities) or enumerated exhaustively up to a preemption bound; oracle = exactly-once / <=n in flight / quiescent at return / no deadlock",
+        "level_text": "Item graphs x worker counts x schedules: random and PCT schedules drawn by rapid for graphs of up to 10 items and 5 workers, and every schedule with <= 2 (quick) / <= 3 (thorough) preemptions, including every rand.Intn and Cond.Signal choice, for 8 small graphs x n in 1..3. The scheduler detects deadlock (lost wake-up) exactly - no timeouts - and failing schedules shrink and replay deterministically.",
+        "level_note": "Trusted: the shim semantics of Mutex/Cond/Map/atomic (harness/shim, sequential consistency between scheduling points; Cond.Signal wakes an arbitrary waiter, no spurious wake-ups) and the source instrumenter (harness/instr). Real-runtime memory-model effects are outside this check (covered only by the -race stress of C10/C20).",
+        "shards": {"quick": 4, "thorough": 16},
+        "rule": "case = item graph (1-10 items, successors incl. duplicates/back edges, 1-3 initial adds), n in 1..5 workers, 0-3 explicit yields inside f, schedule = rapid-drawn choice sequence of at least the expected step count (75%) or PCT priorities with 0-4 change points (25%), plus drawn results for rand.Intn and Cond.Signal; exhaustive part: 8 fixed small graphs x n in 1..3 x 0/1 yields, all schedules within the preemption bound. "
+                "Non-trivial: >=2 workers and a worker parked in Cond.Wait was woken by an Add made from inside f. Distinct by case (graph+schedule); enumerated executions are distinct by construction.",
+        "assumptions": ["the instrumented copy of par/work.go is generated from the current working tree on every run"],
+    },
+    "C10": {
+        "pkg": "c10_parcache",
+        "level": "exploration",
+        "engine": "sched+rapid",
+        "instr": ["par:parx"],
+        "extra": [{"pkg": "parreal", "race": True, "tiers": ["quick", "thorough"], "run": "^TestCacheStress$", "shards": {"quick": 1, "thorough": 4}}],
+        "technique": "property-based testing over schedules (same engine as C09): rapid-drawn and PCT schedules plus bounded exhaustive enumeration of par.Cache Do/Get programs under the cooperative scheduler; oracle = f once per key, value agreement, Do returns after f completed, Get never blocks",
+        "level_text": "2-5 tasks each running 1-4 Do/Get operations over 1-3 keys with yields inside f, under random and PCT schedules, and every schedule with <= 3 (quick) / <= 4 (thorough) preemptions of 8 small programs. Checked: f invoked once per key, every Do returns that invocation's value and only after it completed, Get returns nil or that value and is never parked waiting for another task, a Get that starts after some Do returned sees the value.",
+        "level_note": "Trusted: shim semantics (sequentially consistent sync.Map, Mutex, atomic) and the instrumenter. The thorough tier additionally runs the unmodified package under the race detector (real scheduler) for memory-model coverage.",
+        "shards": {"quick": 4, "thorough": 16},
+        "rule": "case = 2-5 task programs of 1-4 operations (do with 0-3 yields inside f, or get) over 1-3 keys; schedule = drawn choice sequence at least as long as the expected step count (75%) or PCT (25%); exhaustive part: 8 fixed programs of 2-3 tasks, all schedules within the preemption bound. "
+                "Non-trivial: at least two tasks were inside Do for the same key while f was running. Distinct by case; enumerated executions are distinct by construction.",
+        "assumptions": ["the instrumented copy of par/work.go is generated from the current working tree on every run"],
+    },
 }
